@@ -293,7 +293,7 @@ def run(spec, mon):
         pred = runmodel.predict(case["program"], case["cfg"])
         proj = Project(case["program"], {})
         try:
-            res = proj.run(case["args"] + ["-f", "plain"])
+            res = proj.run(case["args"] + ["-f", "plain"], environment=RB.pick_environment(rng, mon))
         finally:
             proj.close()
         mon.case(("sub", RB.strip_case(case)), True)
